@@ -53,14 +53,17 @@ type logEntry struct {
 }
 
 type plug struct {
-	spec  PluginSpec
-	rank  int // position in invocation order
-	name  string
-	p     *fx.Plugin
-	proxy *Proxy
-	rep   Report
-	armed bool
-	wc    *watchConn // the plugin's own end of its connection (plugins that stop themselves)
+	spec       PluginSpec
+	rank       int // position in invocation order
+	name       string
+	p          *fx.Plugin
+	proxy      *Proxy
+	rep        Report
+	armed      bool
+	wc         *watchConn  // the plugin's own end of its connection (plugins that stop themselves)
+	join       *JoinerSpec // the late joiner: its fault strikes during Configure or Synchronize
+	joinStruck bool        // ... and it did
+	second     bool        // the healthy plugin that joins after the first request
 }
 
 func (pl *plug) idx2() string { return fmt.Sprintf("%02d", pl.spec.Idx) }
@@ -280,6 +283,147 @@ func (f *fixture) newPlugin(pl *plug) {
 		return f.enter(pl, fmt.Sprintf("event:%d", int32(e)), tagOf(pod, ct))
 	}
 	pl.p = p
+}
+
+// ---- the late joiner -------------------------------------------------------------------------
+
+// joinHandlers gives the first joiner its registration-time behaviour: the fault strikes in the
+// handler of its phase (handler-driven kinds) or is armed on its proxy there (wire kinds).
+func (f *fixture) joinHandlers(pl *plug) {
+	j := pl.join
+	strike := func(phase string) error {
+		ft := j.Fault
+		if phase == "configure" && j.Phase == "synchronize" && ft.Kind == "cut" && ft.Dir == "r2p" {
+			// the next thing the runtime sends is the Synchronize request
+			pl.proxy.Arm(Plan{Kind: "cut", Dir: R2P, K: ft.K, StallMs: ft.StallMs, OneMsg: true})
+			pl.armed = true
+			return nil
+		}
+		if phase != j.Phase {
+			return nil
+		}
+		f.record(pl, "join:"+phase, "join")
+		switch ft.Kind {
+		case "error":
+			err, _ := handlerError(ft)
+			return err
+		case "hang":
+			<-f.release
+		case "close":
+			pl.proxy.CloseNow()
+		case "cut":
+			if ft.Dir == "p2r" {
+				pl.proxy.Arm(Plan{Kind: "cut", Dir: P2R, K: ft.K, OneMsg: true})
+				pl.armed = true
+			}
+		case "wrongtype":
+			pl.proxy.Arm(Plan{Kind: "wrongtype", Type: byte(ft.Type)})
+			pl.armed = true
+		case "undecodable":
+			pl.proxy.Arm(Plan{Kind: "undecodable", Level: ft.Level, Bytes: ft.Bytes})
+			pl.armed = true
+		case "garbage":
+			pl.proxy.Arm(Plan{Kind: "garbage", Level: ft.Level, Bytes: ft.Bytes, ConnID: ft.ConnID, DeclLen: ft.DeclLen,
+				StreamSel: ft.StreamSel, Type: byte(ft.Type), Flags: byte(ft.Flags)})
+			pl.armed = true
+		}
+		return nil
+	}
+	pl.p.OnConfigure = func(context.Context, string, string, string) (api.EventMask, error) {
+		return 0, strike("configure")
+	}
+	pl.p.OnSynchronize = func(context.Context, []*api.PodSandbox, []*api.Container) ([]*api.ContainerUpdate, error) {
+		return nil, strike("synchronize")
+	}
+}
+
+type joinVerdict struct {
+	fail, timeFail, overload string
+	stuck                    bool
+}
+
+// probe issues a probe event with a watchdog: a probe that does not come back means the
+// adaptation is wedged (its lock is held for good).
+func (f *fixture) probe(bound time.Duration) (err error, wedged bool) {
+	done := make(chan error, 1)
+	go func() { done <- f.rt.Probe() }()
+	select {
+	case err := <-done:
+		return err, false
+	case <-time.After(bound):
+		return nil, true
+	}
+}
+
+// joinFirst connects the first joiner and waits until its fate is settled: its session has
+// ended (the fault struck) or it answers probes (the fault did not strike, e.g. a cut point
+// beyond the message). A joiner that was struck must not have become a member.
+func (f *fixture) joinFirst(pl *plug, bound time.Duration) (jv joinVerdict) {
+	f.newPlugin(pl)
+	f.joinHandlers(pl)
+	px, err := NewProxy(f.dir, "px"+pl.idx2(), f.rt.Socket)
+	if err != nil {
+		jv.overload = "cannot create proxy: " + err.Error()
+		return
+	}
+	pl.proxy = px
+	if ft := pl.join.Fault; pl.join.Phase == "configure" && ft.Kind == "cut" && ft.Dir == "r2p" {
+		px.Arm(Plan{Kind: "cut", Dir: R2P, K: ft.K, StallMs: ft.StallMs, OneMsg: true})
+		pl.armed = true
+	}
+	if err := pl.p.NewStub(f.rt.Socket, px.Dial); err != nil {
+		jv.overload = "cannot create stub: " + err.Error()
+		return
+	}
+	go pl.p.Stub.Start(context.Background()) // its outcome is the plugin's business
+	base := f.w.Count(pl.name)
+	deadline := time.Now().Add(bound)
+	ended, active := false, false
+	for !ended && !active {
+		if who, _ := px.Closer(); who != "" {
+			ended = true
+			break
+		}
+		err, wedged := f.probe(bound)
+		if wedged {
+			jv.timeFail = fmt.Sprintf("clause 1: a request issued while plugin %02d was failing during its %s (%s) did not return within %v", pl.spec.Idx, pl.join.Phase, describe(pl.join.Fault), bound)
+			jv.stuck = true
+			return
+		}
+		if err != nil {
+			jv.fail = fmt.Sprintf("clause 2: a probe request failed with %q while plugin %02d was registering", err, pl.spec.Idx)
+			return
+		}
+		if f.w.Count(pl.name) > base {
+			active = true
+			break
+		}
+		if time.Now().After(deadline) {
+			jv.timeFail = fmt.Sprintf("clause 1: plugin %02d, failing during its %s (%s), was neither dropped nor activated within %v", pl.spec.Idx, pl.join.Phase, describe(pl.join.Fault), bound)
+			return
+		}
+		time.Sleep(time.Millisecond)
+	}
+	if pl.armed {
+		pl.rep = px.Disarm()
+		pl.armed = false
+	}
+	struck := f.count(pl.spec.Idx, "join") > 0 && pl.join.Fault.Kind != "cut" && pl.join.Fault.Kind != "wrongtype" &&
+		pl.join.Fault.Kind != "undecodable" && pl.join.Fault.Kind != "garbage"
+	struck = struck || pl.rep.Fired || pl.rep.Consumed
+	switch {
+	case ended && !struck:
+		jv.overload = fmt.Sprintf("joining plugin %02d lost its session although its fault had not struck (registration slower than the request timeout?)", pl.spec.Idx)
+	case active && struck:
+		jv.fail = fmt.Sprintf("clause 4: plugin %02d failed during its %s (%s) and was activated all the same: it receives requests", pl.spec.Idx, pl.join.Phase, describe(pl.join.Fault))
+	case ended:
+		pl.joinStruck = true
+		// let the runtime finish with it (the stub's close callback follows the session's end)
+		for t := time.Now().Add(settleMax); pl.p.Closed.Load() == 0 && time.Now().Before(t); {
+			time.Sleep(time.Millisecond)
+		}
+	}
+	return
 }
 
 // ---- requests ------------------------------------------------------------------------------
@@ -707,6 +851,27 @@ func validate(c C07Case) string {
 			return "unknown request kind"
 		}
 	}
+	if j := c.Joiner; j != nil {
+		if len(c.Plugins) > 3 {
+			return "at most three plugins besides the two joiners"
+		}
+		if j.Idx < 0 || j.Idx > 99 || j.Idx2 < 0 || j.Idx2 > 99 || j.Idx == j.Idx2 || seen[j.Idx] || seen[j.Idx2] {
+			return "joiner indices must be distinct and within 00..99"
+		}
+		if j.Phase != "configure" && j.Phase != "synchronize" {
+			return "unknown joiner phase"
+		}
+		switch k := j.Fault.Kind; {
+		case k == "error" || k == "hang" || k == "wrongtype" || k == "undecodable" || k == "garbage":
+		case k == "close" && j.Fault.When == "during":
+		case k == "cut" && (j.Fault.Dir == "p2r" || j.Fault.Dir == "r2p") && j.Fault.PressCalls == 0 && j.Fault.StallMs >= 0 && j.Fault.StallMs <= 250:
+		default:
+			return "fault not available for a joiner"
+		}
+		if j.Fault.Then != "" || len(j.Fault.Bytes) > 1<<16 {
+			return "fault not available for a joiner"
+		}
+	}
 	for _, k := range []string{c.ReqSize, c.FollowSize} {
 		if k != "" && sizeOf(k) == 0 {
 			return "unknown request size class"
@@ -757,10 +922,27 @@ func runOnce(c C07Case) (v verdict) {
 			reg = append(reg, pl)
 		}
 	}
-	sort.Slice(f.plugs, func(i, j int) bool { return f.plugs[i].spec.Idx < f.plugs[j].spec.Idx })
-	for i, pl := range f.plugs {
-		pl.rank = i
+	// the late joiners are plugins like the others as far as requests go (no fault of their own
+	// there); the first joins - or fails to - before the first request, the second after it
+	var j1, j2 *plug
+	if c.Joiner != nil {
+		j1 = &plug{spec: PluginSpec{Idx: c.Joiner.Idx, Fault: Fault{Kind: "none"}}, name: fmt.Sprintf("plg%02d", c.Joiner.Idx), join: c.Joiner}
+		j2 = &plug{spec: PluginSpec{Idx: c.Joiner.Idx2, Fault: Fault{Kind: "none"}}, name: fmt.Sprintf("plg%02d", c.Joiner.Idx2), second: true}
+		f.plugs = append(f.plugs, j1)
+		n += 2
 	}
+	{
+		// ranks (which field of an updated container a plugin owns) over everybody, j2 included
+		all := append([]*plug{}, f.plugs...)
+		if j2 != nil {
+			all = append(all, j2)
+		}
+		sort.Slice(all, func(i, j int) bool { return all[i].spec.Idx < all[j].spec.Idx })
+		for i, pl := range all {
+			pl.rank = i
+		}
+	}
+	sort.Slice(f.plugs, func(i, j int) bool { return f.plugs[i].spec.Idx < f.plugs[j].spec.Idx })
 	var opts []adaptation.Option
 	if nLaunched > 0 {
 		f.ldir = fx.ShortDir()
@@ -812,19 +994,38 @@ func runOnce(c C07Case) (v verdict) {
 			v.leakedFix = true
 			return
 		}
-		for _, pl := range f.plugs {
-			if pl.p != nil && pl.p.Stub != nil {
-				pl.p.Stub.Stop()
-			}
-		}
+		// proxies first: closing their sockets frees whatever is still stuck writing to a peer
+		// that stopped reading (a stub's Stop() may wait for its own writers)
 		for _, pl := range f.plugs {
 			if pl.proxy != nil {
 				pl.proxy.Shutdown()
 			}
 		}
+		// (a stub that cannot stop - its own multiplexer wedged - must not wedge the harness)
+		var stops sync.WaitGroup
+		for _, pl := range append(append([]*plug{}, f.plugs...), j2) {
+			if pl != nil && pl.p != nil && pl.p.Stub != nil {
+				stops.Add(1)
+				go func(p *fx.Plugin) {
+					defer stops.Done()
+					p.Stub.Stop()
+				}(pl.p)
+			}
+		}
+		stopped := make(chan struct{})
+		go func() { stops.Wait(); close(stopped) }()
+		select {
+		case <-stopped:
+		case <-time.After(5 * time.Second):
+		}
 		pids := f.launchedPids()
 		rt.Stop()
-		f.pressWG.Wait()
+		pressed := make(chan struct{})
+		go func() { f.pressWG.Wait(); close(pressed) }()
+		select {
+		case <-pressed:
+		case <-time.After(5 * time.Second):
+		}
 		if f.ldir != "" {
 			// the runtime kills what is still in its list and what it dropped; whatever is left
 			// (nothing, on a correct tree) must not outlive the case
@@ -912,6 +1113,41 @@ func runOnce(c C07Case) (v verdict) {
 		}
 	}
 	adaptation.SetPluginRequestTimeout(ReqTimeout)
+
+	// --- the late joiner: connects now, its fault strikes during Configure or Synchronize
+	joinBound := 2*ReqTimeout + slack
+	if j1 != nil {
+		v.classes = append(v.classes, "joiner", "joiner:"+j1.join.Phase, "joiner-fault:"+j1.join.Fault.Kind)
+		if why := f.joinFirst(j1, joinBound); why.timeFail != "" || why.overload != "" || why.fail != "" {
+			v.timeFail, v.overload, v.fail = why.timeFail, why.overload, why.fail
+			v.history = map[string]any{"log": f.history()}
+			if why.stuck {
+				v.history = map[string]any{"log": f.history(), "stacks": allStacks()}
+				stuck = true
+			}
+			return
+		}
+		if j1.joinStruck {
+			v.classes = append(v.classes, "joiner-struck:"+j1.join.Phase)
+		} else {
+			v.classes = append(v.classes, "joiner-joined")
+		}
+		// what the runtime offers its user to hold registrations off must still work
+		done := make(chan struct{})
+		go func() {
+			b := rt.A.BlockPluginSync()
+			b.Unblock()
+			close(done)
+		}()
+		select {
+		case <-done:
+		case <-time.After(joinBound):
+			v.timeFail = fmt.Sprintf("clause 2: BlockPluginSync() did not return within %v after plugin %02d had failed during its %s (%s): plugin synchronization is wedged",
+				joinBound, j1.spec.Idx, j1.join.Phase, describe(j1.join.Fault))
+			v.history = map[string]any{"log": f.history(), "stacks": allStacks()}
+			return
+		}
+	}
 
 	// --- classes that depend on the case only
 	nfaults := 0
@@ -1079,6 +1315,15 @@ func runOnce(c C07Case) (v verdict) {
 	for _, pl := range f.plugs {
 		ft := pl.spec.Fault
 		invoked := f.count(pl.spec.Idx, mainTag)
+		if pl.joinStruck {
+			// never became a member: no request may reach it
+			if invoked != 0 {
+				v.fail = fmt.Sprintf("clause 4: plugin %02d had failed during its %s (%s), yet it received the %s request", pl.spec.Idx, pl.join.Phase, describe(pl.join.Fault), c.Req)
+				return
+			}
+			struck = append(struck, pl)
+			continue
+		}
 		if invoked > 1 {
 			v.fail = fmt.Sprintf("plugin %02d was invoked %d times for one request", pl.spec.Idx, invoked)
 			return
@@ -1391,6 +1636,55 @@ func runOnce(c C07Case) (v verdict) {
 				return
 			}
 			time.Sleep(time.Millisecond)
+		}
+	}
+
+	// --- the second joiner: a healthy plugin connects now and has to become a member
+	if j2 != nil {
+		f.newPlugin(j2)
+		if err := j2.p.NewStub(rt.Socket, nil); err != nil {
+			v.overload = "cannot create stub: " + err.Error()
+			return
+		}
+		started := make(chan error, 1)
+		go func() { started <- j2.p.Stub.Start(context.Background()) }()
+		t0 := time.Now()
+		var startErr error
+		select {
+		case startErr = <-started:
+		case <-time.After(joinBound):
+			startErr = fmt.Errorf("Start() still running")
+		}
+		if startErr == nil {
+			base := f.w.Count(j2.name)
+			for f.w.Count(j2.name) <= base && startErr == nil {
+				left := joinBound - time.Since(t0)
+				if left <= 0 {
+					startErr = fmt.Errorf("no probe reached it")
+					break
+				}
+				err, wedged := f.probe(left)
+				switch {
+				case wedged:
+					startErr = fmt.Errorf("a probe request did not return")
+					stuck = true
+				case err != nil:
+					startErr = fmt.Errorf("probe failed: %w", err)
+				default:
+					time.Sleep(time.Millisecond)
+				}
+			}
+		}
+		if startErr != nil {
+			hist["stacks"] = allStacks()
+			v.timeFail = fmt.Sprintf("clause 2: healthy plugin %02d, connecting after plugin %02d had failed during its %s (%s), was not active %v later (%v): registrations are wedged",
+				j2.spec.Idx, j1.spec.Idx, j1.join.Phase, describe(j1.join.Fault), joinBound, startErr)
+			return
+		}
+		survivors = append(survivors, j2)
+		v.classes = append(v.classes, "second-joiner-active")
+		if j1.joinStruck {
+			v.nontriv = true // a registration-time request failed and a later registration had to succeed
 		}
 	}
 
